@@ -22,4 +22,12 @@ int g_d; /* ghost: any offset */
   /* completeness: every in-image neighbour inside the weights' support is visited (needed for Hessian symmetry:       \
      the pair (v, v+d) is seen from v iff it is seen from v+d with -d when the weights range is symmetric) */         \
   __CPROVER_ensures((wmin <= g_d && g_d <= wmax && lo <= (long)c + g_d && (long)c + g_d <= hi) ==> (*min_d <= g_d && g_d <= *max_d))
+
+/* ---- neighbour index triples: image / kappa / input at [z+A][y+B][x+C] and weights[A][B][C] ----
+   From the property (value, gradient and Hessian are sums over the SAME neighbourhood of one voxel): the three offsets of an access
+   are the three components of ONE neighbour offset, (dz,dy,dx) or (ddz,ddy,ddx) - never a mixture. The six loop variables are
+   pairwise different values here, so that a mixture cannot pass by coincidence. */
+#define IDX_DISTINCT (dz != dy && dz != dx && dy != dx && ddz != ddy && ddz != ddx && ddy != ddx && dz != ddz && dz != ddy && dz != ddx && dy != ddz && dy != ddy && dy != ddx \
+                      && dx != ddz && dx != ddy && dx != ddx)
+#define SAME_NEIGHBOUR(a, b, c) (((a) == dz && (b) == dy && (c) == dx) || ((a) == ddz && (b) == ddy && (c) == ddx))
 #endif
